@@ -34,6 +34,8 @@ type Monitor struct {
 	// dead generations: nodes that must never run again (C08)
 	dead       map[int]bool
 	deadBefore map[int]bool // dead before the current pass started
+	necThisPass   map[int]bool // nodes that (re-)entered the graph during the current pass
+	deadByReentry map[int]bool // discarded by a bind function run that happened because the bind re-entered the graph
 	everNec    map[int]bool // ever became necessary
 	// whether any pass since the last fully successful one failed
 	failedSince bool
@@ -46,7 +48,7 @@ type Monitor struct {
 
 func NewMonitor(e *Exec) *Monitor {
 	m := &Monitor{E: e, live: map[int]bool{}, invalided: map[int]bool{}, runsThisPass: map[int]int{},
-		rhsRoot: map[int]int{}, dead: map[int]bool{}, deadBefore: map[int]bool{}, everNec: map[int]bool{}, deferred: map[int]int{}, passStart: map[int]int{}}
+		rhsRoot: map[int]int{}, dead: map[int]bool{}, deadBefore: map[int]bool{}, everNec: map[int]bool{}, necThisPass: map[int]bool{}, deadByReentry: map[int]bool{}, deferred: map[int]int{}, passStart: map[int]int{}}
 	e.OnEvent = m.onEvent
 	e.OnAction = m.onAction
 	return m
@@ -72,6 +74,7 @@ func (m *Monitor) onEvent(ev Event) {
 		}
 		m.live[ev.N] = true
 		m.everNec[ev.N] = true
+		m.necThisPass[ev.N] = true
 		m.runsThisPass[ev.N] = 0 // a new period of necessity
 	case "EvUnnec":
 		if !m.live[ev.N] {
@@ -101,6 +104,9 @@ func (m *Monitor) onEvent(ev Event) {
 			b := ev.N
 			for id, ref := range m.E.Nodes {
 				if ref != nil && ref.Scope == b && ref.Gen < m.E.Nodes[b].Bind.Gen-1 && id != ev.Root {
+					if !m.dead[id] && m.necThisPass[b] {
+						m.deadByReentry[id] = true
+					}
 					m.dead[id] = true
 				}
 			}
@@ -150,6 +156,7 @@ func (m *Monitor) onAction(a Action) {
 func (m *Monitor) BeforeOp(op Op) {
 	if op.K == "Stabilize" || op.K == "StabilizeCancelled" || op.K == "ParStabilize" {
 		m.runsThisPass = map[int]int{}
+		m.necThisPass = map[int]bool{}
 		m.deferred = map[int]int{}
 		m.passStart = map[int]int{}
 		for id, ref := range m.E.Nodes {
@@ -549,16 +556,13 @@ func (m *Monitor) passOracles(op Op, s Sample) {
 	}
 	// C08: every node of a right-hand side discarded in this pass is invalidated in this pass and
 	// its function does not run in it -- not even before the swap
+	// the property speaks of a bind whose INPUT CHANGES; a bind that was dropped and picked up
+	// again within the pass re-runs its function because it is new to the graph, and the
+	// right-hand side it then discards may legitimately have recomputed earlier in the pass
+	// (nodes discarded that way are marked deadByReentry)
 	swapped := map[int]bool{}
-	reentered := map[int]bool{} // binds that (re-)entered the graph in this pass before their function ran
 	for _, ev := range s.Raw {
-		if ev.K == "EvNec" {
-			reentered[ev.N] = true
-		}
-		if ev.K == "EvBindFn" && !reentered[ev.N] {
-			// the property speaks of a bind whose INPUT CHANGES; a bind that was dropped and picked
-			// up again within the pass re-runs its function because it is new to the graph, and
-			// its earlier right-hand side may legitimately have recomputed before it was dropped
+		if ev.K == "EvBindFn" {
 			swapped[ev.N] = true
 		}
 	}
@@ -574,7 +578,7 @@ func (m *Monitor) passOracles(op Op, s Sample) {
 			}
 		}
 		for id, ref := range e.Nodes {
-			if ref == nil || !m.dead[id] || m.deadBefore[id] || ref.Scope < 0 || !swapped[ref.Scope] {
+			if ref == nil || !m.dead[id] || m.deadBefore[id] || m.deadByReentry[id] || ref.Scope < 0 || !swapped[ref.Scope] {
 				continue
 			}
 			if !inval[id] && !m.invalided[id] && m.everNec[id] {
